@@ -294,21 +294,24 @@ theorem page_inv_init (sh : Shared D L) : Editor.PageInv env { shared := sh, sta
 /-- **a phrase list opened by Down / Space / `chewing_cand_open` is non-empty and on page 0**: its page
     index is strictly below the page count, and its range is a non-empty part of the buffer -/
 theorem opened_phrase_list_in_range {sh sh' : Shared D L} {s : Selecting} {tp : Nat}
-    (h : newPhrase env sh = .ok (sh', .toState (.selecting s)))
+    (h : openPhrase env sh = .ok (sh', .toState (.selecting s)))
     (ht : Selecting.totalPage env s sh' = .ok tp) :
     s.pageNo < tp ∧ ∃ p, s.sel = .phrase p ∧ p.begin_ < p.end_ ∧ p.end_ ≤ p.com.len := by
   obtain ⟨cs, hc, hper, rfl⟩ := totalPage_ok env ht
-  obtain ⟨h0, hne, hp⟩ := newPhrase_nonempty env h hc
+  obtain ⟨h0, hne, hp⟩ := openPhrase_nonempty env h hc
   refine ⟨?_, hp⟩
   rw [h0]
   exact pageCount_pos _ _ hper (List.length_pos_iff.mpr hne)
 
 /-- what `PhraseSelector::init` (opening, `j` / `k`, `chewing_cand_list_first`) returns: a non-empty
-    range inside the buffer for which the dictionary has a phrase -/
+    range inside the buffer for which the dictionary has a phrase — or (F02 / F03 repair) the one-syllable
+    range of a syllable the dictionary has no word for (`PhraseSel.WordlessSyl`: the range query answers
+    "no phrase", the range is `begin .. begin + 1`, the symbol at `begin` is a syllable; `open_phrase` then
+    does not open the list and `j` / `k` close it) -/
 theorem init_range {fw : Bool} {st : Strategy} {com : Composition} {cur : Nat} {d : D} {p : PhraseSel}
     (h : PhraseSel.init env fw st com cur d = .ok p) :
     p.begin_ < p.end_ ∧ p.end_ ≤ p.com.len ∧ p.com = com ∧
-    PhraseSel.rangeHasPhrase env p d p.begin_ p.end_ = .ok true := init_ok env h
+    (PhraseSel.rangeHasPhrase env p d p.begin_ p.end_ = .ok true ∨ PhraseSel.WordlessSyl env p d) := init_ok env h
 
 /-! ### F32 (repaired): the former witness -/
 
@@ -581,7 +584,7 @@ def range_is_syllables_unconditional : Prop :=
     non-empty run of syllables inside the selector's buffer, which is the editor's buffer -/
 def range_is_syllables_full : Prop :=
   ∀ (D L : Type) (env : Env D L) (G : D → Prop), C01.EnvOK env G →
-    ∀ (e e' : Editor D L), C01.EditorInv env G e → ∀ (ops : List (Op L)), C01.Allowed env e ops →
+    ∀ (e e' : Editor D L), C01.EditorInv env G True e → ∀ (ops : List (Op L)), C01.Allowed env e ops →
     ∀ (s : Selecting) (p : PhraseSel), e.run env ops = .ok e' → e'.state = .selecting s → s.sel = .phrase p →
     p.begin_ < p.end_ ∧ p.end_ ≤ p.com.symbols.length ∧ C04.AllSyl p.com p.begin_ p.end_ ∧
     p.com = e'.shared.com.inner ∧ ∃ key, RangeIs p key ∧ key.length = p.end_ - p.begin_
@@ -616,7 +619,7 @@ theorem rangeIs_of_allSyl {p : PhraseSel} (hlt : p.begin_ < p.end_) (hle : p.end
     omega
 
 /-- in a state satisfying C01's invariant the range of an open phrase list is a run of syllables -/
-theorem range_of_inv {D L : Type} {env : Env D L} {G : D → Prop} {e : Editor D L} (hi : C01.EditorInv env G e)
+theorem range_of_inv {D L : Type} {env : Env D L} {G : D → Prop} {e : Editor D L} (hi : C01.EditorInv env G True e)
     {s : Selecting} {p : PhraseSel} (hs : e.state = .selecting s) (hsel : s.sel = .phrase p) :
     p.begin_ < p.end_ ∧ p.end_ ≤ p.com.symbols.length ∧ C04.AllSyl p.com p.begin_ p.end_ ∧
     p.com = e.shared.com.inner ∧ ∃ key, RangeIs p key ∧ key.length = p.end_ - p.begin_ := by
@@ -671,7 +674,7 @@ theorem f40_history_repaired :
     the range, and the list is exactly the dictionary's answer for `key`, in order — followed, for a single
     syllable, by the answers for the layout's alternative syllables -/
 theorem open_phrase_list_complete {D L : Type} {env : Env D L} {G : D → Prop} {e : Editor D L}
-    (hi : C01.EditorInv env G e) {s : Selecting} {p : PhraseSel} {cs : List Text}
+    (hi : C01.EditorInv env G True e) {s : Selecting} {p : PhraseSel} {cs : List Text}
     (hs : e.state = .selecting s) (hsel : s.sel = .phrase p) (hc : Selecting.candidates env s e.shared = .ok cs) :
     ∃ key, RangeIs p key ∧ key.length = p.end_ - p.begin_ ∧
       (p.end_ - p.begin_ ≠ 1 → cs = (env.lookupAll e.shared.dict key p.strategy).map (·.text)) ∧
@@ -686,7 +689,7 @@ theorem open_phrase_list_complete {D L : Type} {env : Env D L} {G : D → Prop} 
 
 /-- … over histories: every open phrase list reached is complete -/
 theorem phrase_list_complete_reached {D L : Type} {env : Env D L} {G : D → Prop} (hE : C01.EnvOK env G)
-    (e e' : Editor D L) (hi : C01.EditorInv env G e) (ops : List (Op L)) (ha : C01.Allowed env e ops)
+    (e e' : Editor D L) (hi : C01.EditorInv env G True e) (ops : List (Op L)) (ha : C01.Allowed env e ops)
     {s : Selecting} {p : PhraseSel} {cs : List Text}
     (hrun : e.run env ops = .ok e') (hs : e'.state = .selecting s) (hsel : s.sel = .phrase p)
     (hc : Selecting.candidates env s e'.shared = .ok cs) :
@@ -730,32 +733,54 @@ theorem initLoop_longest (d : D) : ∀ (fuel : Nat) (s s' : PhraseSel), PhraseSe
           · injection h with h; subst h
             exact ⟨fun _ => ⟨rfl, fun e' a b => by omega⟩, fun _ => ⟨rfl, fun b' a b => by omega⟩⟩
           · rename_i hfalse
+            have hstop : Outcome.ok s = Outcome.ok s' →
+                (s.forward = true → s'.begin_ = s.begin_ ∧
+                  ∀ e', s'.end_ < e' → e' ≤ s.end_ → PhraseSel.rangeHasPhrase env s d s.begin_ e' = .ok false) ∧
+                (s.forward = false → s'.end_ = s.end_ ∧
+                  ∀ b', s.begin_ ≤ b' → b' < s'.begin_ → PhraseSel.rangeHasPhrase env s d b' s.end_ = .ok false) := by
+              intro h; injection h with h; subst h
+              exact ⟨fun _ => ⟨rfl, fun e' a b => by omega⟩, fun _ => ⟨rfl, fun b' a b => by omega⟩⟩
+            have hrec : (if s.forward = true then PhraseSel.initLoop env { s with end_ := s.end_ - 1 } d fuel
+                else PhraseSel.initLoop env { s with begin_ := s.begin_ + 1 } d fuel) = .ok s' →
+                (s.forward = true → s'.begin_ = s.begin_ ∧
+                  ∀ e', s'.end_ < e' → e' ≤ s.end_ → PhraseSel.rangeHasPhrase env s d s.begin_ e' = .ok false) ∧
+                (s.forward = false → s'.end_ = s.end_ ∧
+                  ∀ b', s.begin_ ≤ b' → b' < s'.begin_ → PhraseSel.rangeHasPhrase env s d b' s.end_ = .ok false) := by
+              intro h
+              split at h
+              · rename_i hfw
+                obtain ⟨ihf, _⟩ := ih _ _ h
+                obtain ⟨hb, hall⟩ := ihf hfw
+                refine ⟨fun _ => ⟨hb, ?_⟩, fun hh => by rw [hfw] at hh; cases hh⟩
+                intro e' a b
+                rcases Nat.lt_or_ge e' s.end_ with hlt | hge
+                · exact hall e' a (by show e' ≤ s.end_ - 1; omega)
+                · have : e' = s.end_ := by omega
+                  subst this; exact hfalse
+              · rename_i hfw
+                have hfw' : s.forward = false := by cases hx : s.forward <;> simp_all
+                obtain ⟨_, ihr⟩ := ih _ _ h
+                obtain ⟨he, hall⟩ := ihr hfw'
+                refine ⟨fun hh => absurd hh hfw, fun _ => ⟨he, ?_⟩⟩
+                intro b' a b
+                rcases Nat.lt_or_ge s.begin_ b' with hlt | hge
+                · exact hall b' (by show s.begin_ + 1 ≤ b'; omega) b
+                · have : b' = s.begin_ := by omega
+                  subst this; exact hfalse
+            -- the early exit (a syllable without a word keeps its one-syllable range): nothing was shrunk
             split at h
-            · rename_i hfw
-              obtain ⟨ihf, _⟩ := ih _ _ h
-              obtain ⟨hb, hall⟩ := ihf hfw
-              refine ⟨fun _ => ⟨hb, ?_⟩, fun hh => by rw [hfw] at hh; cases hh⟩
-              intro e' a b
-              rcases Nat.lt_or_ge e' s.end_ with hlt | hge
-              · exact hall e' a (by show e' ≤ s.end_ - 1; omega)
-              · have : e' = s.end_ := by omega
-                subst this; exact hfalse
-            · rename_i hfw
-              have hfw' : s.forward = false := by cases hx : s.forward <;> simp_all
-              obtain ⟨_, ihr⟩ := ih _ _ h
-              obtain ⟨he, hall⟩ := ihr hfw'
-              refine ⟨fun hh => absurd hh hfw, fun _ => ⟨he, ?_⟩⟩
-              intro b' a b
-              rcases Nat.lt_or_ge s.begin_ b' with hlt | hge
-              · exact hall b' (by show s.begin_ + 1 ≤ b'; omega) b
-              · have : b' = s.begin_ := by omega
-                subst this; exact hfalse
+            · split at h
+              · exact hstop h
+              · exact hrec h
+            · split at h
+              · exact hstop h
+              · exact hrec h
           · cases h
           · cases h
 
 /-- **the range a phrase list is opened with** (Down / Space / `chewing_cand_open`, `j` / `k`,
     `chewing_cand_list_first`: `PhraseSelector::init`) **is the longest one at the cursor that has a
-    phrase**: it has a phrase (`init_range`), and — choosing forward — it starts at the cursor and no longer
+    phrase**: it has a phrase or is the one-syllable range of a syllable without a word (`init_range`), and — choosing forward — it starts at the cursor and no longer
     range up to the next break point has one; choosing rearward it ends after the cursor and no longer range
     down to the previous break point has one.  (Shorter ranges follow with Down / Space.)  For every
     environment; what the oracle's check D evaluates on the real editor. -/
@@ -866,6 +891,12 @@ example : ∃ e' s p cs,
 example : ∃ p, PhraseSel.init f32Env true .standard { symbols := [.syl 1, .syl 1], gaps := [.begin, .normal] } 0 () = .ok p ∧
     (p.begin_, p.end_) = (0, 1) ∧ p.nextBreakPoint 0 = 2 ∧ PhraseSel.rangeHasPhrase f32Env p () 0 2 = .ok false :=
   ⟨_, rfl, rfl, rfl, rfl⟩
+
+/-- the second alternative of `init_range` is inhabited (F02 / F03 repair): a syllable the dictionary has no
+    word for keeps its one-syllable range, and the range query answers "no phrase" -/
+example : ∃ p, PhraseSel.init f32Env true .standard { symbols := [.syl 2], gaps := [.begin] } 0 () = .ok p ∧
+    (p.begin_, p.end_) = (0, 1) ∧ PhraseSel.WordlessSyl f32Env p () :=
+  ⟨_, rfl, rfl, rfl, rfl, _, rfl, rfl⟩
 
 example : pageCount 7 3 = 3 ∧ pageItems [1, 2, 3, 4, 5, 6, 7] 3 2 = [7] ∧ pageCount 6 3 = 2 ∧ pageCount 0 3 = 0 := by decide
 
